@@ -639,6 +639,10 @@ class ListItem(BlockToken):
                     marker_info = cls.parse_marker(next_line)
                     if marker_info is not None and List.same_marker_type(leader, marker_info[2]):
                         next_marker = marker_info
+                if next_marker is None:
+                    # the list ends here: leave a blank line to the enclosing block,
+                    # for which it separates this list from what follows
+                    lines.backstep()
                 return (parse_buffer, indentation, prepend, leader, start_line), next_marker
         else:
             line_buffer.append(content)
